@@ -14,6 +14,13 @@ names, and compared with (a) the executable Spec `pMatch` on the declared partic
 Lean model (route + verdicts).  Only particles satisfying Unique Particle Attribution are judged (decided here on the
 unrolled Glushkov automaton: a decision table for the generated families, not a theorem).
 
+Substitution-group tier: SubstitutionGroupComparator::isEquivalentTo is driven directly (real SchemaGrammars, global
+SchemaElementDecls, ComplexTypeInfo base chains with derivedBy / block sets, substitution-group heads in a real
+GrammarResolver) on a systematic family (chain T0 <- T1 <- T2, extension / restriction per step, block on the head
+element, the head's type, the intermediate type and the member's own type: all combinations) and on random declaration
+environments; EVERY ordered pair (member, exemplar) is judged by the Spec `substitutable` (Structures 3.3.6) and compared
+with the code-shaped Lean model `isEquivalentTo` (theorem substitution_closure_spec relates the two).
+
 Document tier: typed component models (global/local elements, named/anonymous complex types, sequence/choice/all,
 ranges, wildcards, substitution groups, abstract/block, extension/restriction + xsi:type, xsi:nil, attribute uses +
 anyAttribute, mixed/empty/simple content, two namespaces with import) are rendered to XSD text and described
@@ -38,7 +45,11 @@ RULE = ("content-model tier: a curated list, two-leaf sequences/choices and one-
         "##any/##other/one namespace with strict/lax/skip, occurrence ranges 0..1, 0..unbounded, 1..unbounded, n..n, n..m, "
         "n..unbounded on leaves and groups); for each particle EVERY child sequence of length <= 4 (5 thorough) over its names "
         "plus foreign names; evaluations = (particle, sequence) pairs; distinct_nontrivial = UPA-valid particles with both "
-        "accepted and rejected sequences. Document tier: see module docstring; evaluations += instance documents x 8 configurations")
+        "accepted and rejected sequences. Substitution-group tier: evaluations += ordered (member, exemplar) pairs of the "
+        "systematic block/derivation family (quick: a seed-dependent quarter) and of random declaration environments. "
+        "Document tier: see module docstring (incl. the substitution-chain family: members typed 1-3 derivation steps below the "
+        "head's type, block / blockDefault on every level, every member in the head's place); "
+        "evaluations += instance documents x 8 configurations")
 ASSUMPTIONS = ["TraverseSchema (schema document -> components) is not modelled: the generator's component model and its "
                "printer renderXsd are trusted to agree",
                "UPA / particle-derivation checks: decision table for the generated families (_partial), not a theorem",
@@ -472,9 +483,151 @@ def cm_correspondence(ctx):
                     "%s model=%s impl=%s" % (ndiff, text(ps[k]), m[k][:60], i[k][:60]),
             "replay": {"tier": "cm", "correspondence": "xsdcm", "spec": tok(ps[k]), "children": "-"}})
 
+# =========================================================================================== substitution-group tier
+# SubstitutionGroupComparator::isEquivalentTo driven directly (harness line Q: real SchemaGrammars / SchemaElementDecls /
+# ComplexTypeInfo chains in a real GrammarResolver) on generated declaration environments, EVERY ordered pair
+# (member, exemplar) of each; judged by the Spec `substitutable` (Structures 3.3.6), and compared with the code-shaped
+# Lean model `isEquivalentTo` (which type's block set is collected at which step of the derivation walk).
+def sg_line(types, elems):
+    w = ["Q", str(len(types))]
+    for base, deriv, blk in types:
+        w.append("%s:%s:%d%d" % ("-" if base is None else base, deriv, blk[0], blk[1]))
+    w.append(str(len(elems)))
+    for ns, t, head, blk in elems:
+        w.append("%d:%d:%s:%d%d%d" % (ns, t, "-" if head is None else head, blk[0], blk[1], blk[2]))
+    return " ".join(w)
+
+def sg_text(types, elems):
+    def b(names, blk):
+        s = " ".join(n for n, x in zip(names, blk) if x)
+        return ' block="%s"' % s if s else ""
+    out = []
+    for i, (base, deriv, blk) in enumerate(types):
+        out.append("complexType T%d%s%s" % (i, "" if base is None else " = %s of T%d" % ("extension" if deriv == "e" else "restriction", base),
+                                           b(("extension", "restriction"), blk)))
+    for k, (ns, t, head, blk) in enumerate(elems):
+        out.append("element %s:q%d type=T%d%s%s" % ("ab"[ns - 1], k, t, "" if head is None else " substitutionGroup=q%d" % head,
+                                                  b(("substitution", "extension", "restriction"), blk)))
+    return "; ".join(out)
+
+def sg_systematic():
+    """the chain T0 <- T1 <- T2 (each step extension or restriction), head q0:T0, members q1:T1 and q2:T2 (q2 affiliated
+       to q0 or to q1), block (extension, restriction) on T0, T1, T2 and on the head: every combination"""
+    out = []
+    blks = [(0, 0), (1, 0), (0, 1), (1, 1)]
+    for d1 in "er":
+        for d2 in "er":
+            for b0 in blks:
+                for b1 in blks:
+                    for b2 in blks:
+                        for bh in blks:
+                            for via in (0, 1):
+                                types = [(None, "r", b0), (0, d1, b1), (1, d2, b2)]
+                                elems = [(1, 0, None, (0, bh[0], bh[1])), (1, 1, 0, (0, 0, 0)), (1, 2, via, (0, 0, 0))]
+                                out.append((types, elems))
+    return out
+
+def sg_small():
+    """one derivation step: head q0:T0, member q1:T1 = extension / restriction of T0; block on T0, T1, the head: all of them"""
+    blks = [(0, 0), (1, 0), (0, 1), (1, 1)]
+    return [([(None, "r", b0), (0, d1, b1)], [(1, 0, None, (0, bh[0], bh[1])), (1, 1, 0, (0, 0, 0))])
+            for d1 in "er" for b0 in blks for b1 in blks for bh in blks]
+
+def sg_random(r):
+    nT = 1 + r.below(5)
+    types = []
+    for i in range(nT):
+        base = None if i == 0 else (i - 1 if r.chance(2, 3) else (r.below(i) if r.chance(4, 5) else None))
+        types.append((base, r.choice("er"), (1 if r.chance(1, 4) else 0, 1 if r.chance(1, 4) else 0)))
+    nE = 2 + r.below(5)
+    elems = []
+    for k in range(nE):
+        head = None if k == 0 else (r.below(k) if r.chance(4, 5) else None)
+        t = r.below(nT)
+        if head is not None and r.chance(3, 4):
+            # a type at or below the head's type (what a valid schema requires); otherwise unrelated (must be refused)
+            below = [i for i in range(nT) if sg_reaches(types, i, elems[head][1])]
+            t = r.choice(below)
+        elems.append((2 if r.chance(1, 6) else 1, t, head,
+                      (1 if r.chance(1, 8) else 0, 1 if r.chance(1, 4) else 0, 1 if r.chance(1, 4) else 0)))
+    return types, elems
+
+def sg_reaches(types, t, target):
+    while t is not None:
+        if t == target: return True
+        t = types[t][0]
+    return False
+
+def sg_correspondence(ctx):
+    r = ctx.rng
+    envs = sg_systematic()
+    if not ctx.thorough():
+        k0 = r.below(4)
+        envs = envs[k0::4]
+    envs = sg_small() + envs
+    envs += [sg_random(r) for _ in range(20000 if ctx.thorough() else 1500)]
+    lines = [sg_line(t, e) for t, e in envs]
+    common.build_harness("hx_xsd")
+    res = {}
+    def t_m(): res["m"] = shard_run(drv("xsdsg"), lines, 2)
+    def t_i(): res["i"] = shard_run(impl, lines, 4)
+    ths = [threading.Thread(target=f) for f in (t_m, t_i)]
+    for t in ths: t.start()
+    for t in ths: t.join()
+    if "m" not in res or "i" not in res:
+        raise common.InfraError("substitution-group tier run failed")
+    by = {}
+    pairs = yes = blocked_by_type = ndiff = 0
+    first_diff = None
+    for (types, elems), line, mo, io in zip(envs, lines, res["m"], res["i"]):
+        f = mo.split()
+        n = len(elems)
+        if len(f) != 2 or len(f[0]) != n * n or len(f[1]) != n * n:
+            raise common.InfraError("xvdriver xsdsg: " + mo[:120])
+        model, spec = f
+        if len(io) != n * n:
+            key = "sg:no-verdict"
+            if key not in by: by[key] = (len(line) * 100, "isEquivalentTo: harness output %s for %s" % (io[:80], sg_text(types, elems)), line, None)
+            continue
+        if model != io:
+            ndiff += 1
+            if first_diff is None: first_diff = (types, elems, line, model, io)
+        for d in range(n):
+            for c in range(n):
+                k = d * n + c
+                pairs += 1
+                if spec[k] == "1" and d != c: yes += 1
+                if io[k] == spec[k]:
+                    continue
+                key = "sg:isEquivalentTo:" + ("exception" if io[k] == "x" else
+                                              ("accepts-not-substitutable" if io[k] == "1" else "rejects-substitutable"))
+                what = ("SubstitutionGroupComparator::isEquivalentTo(q%d, q%d) returns %s, Structures 3.3.6 (Spec `substitutable`): %s. "
+                        "Declarations: %s" % (d, c, {"1": "true", "0": "false", "x": "an exception"}[io[k]],
+                                              "substitutable" if spec[k] == "1" else "NOT substitutable", sg_text(types, elems)))
+                size = len(line) * 100 + line.count("1")           # fewest declarations, then fewest block bits / foreign names
+                if key not in by or size < by[key][0]:
+                    by[key] = (size, what, line, (d, c))
+    for key, (_, what, line, pair) in by.items():
+        ctx.violations.append({"key": key, "concrete": True, "what": what,
+                               "replay": {"tier": "sg", "line": line, "pair": pair, "origin": "correspondence"}})
+    if ndiff and by:
+        ctx.notes.append("correspondence xsdsg: the code-shaped model of isEquivalentTo differs from the library on %d environments "
+                         "(explained by the concrete sg: violation(s))" % ndiff)
+    elif ndiff:
+        types, elems, line, model, io = first_diff
+        ctx.violations.append({"key": "corr:xsdsg", "concrete": False,
+            "what": "correspondence xsdsg (code-shaped model of SubstitutionGroupComparator::isEquivalentTo: head walk, type-derivation "
+                    "walk collecting derivation methods and block sets) no longer checks (%d environments), first: %s model=%s impl=%s" % (
+                        ndiff, sg_text(types, elems), model, io),
+            "replay": {"tier": "sg", "correspondence": "xsdsg", "line": line}})
+    ctx.stats["sg"] = dict(environments=len(envs), pairs=pairs, substitutable_pairs=yes, model_disagreements=ndiff)
+    ctx.stats["evaluations"] = ctx.stats.get("evaluations", 0) + pairs
+    ctx.samples.append({"case": lines[0], "declarations": sg_text(*envs[0])[:300], "model_spec": res["m"][0], "impl": res["i"][0]})
+
 # =========================================================================================== entry points
 def correspondence(ctx):
     cm_correspondence(ctx)
+    sg_correspondence(ctx)
     doc_correspondence(ctx)
     errs = [c for c in _stderr]
     for pos, line, summ in errs[:3]:
@@ -504,12 +657,27 @@ def search(ctx, broken):
             break
     if len(ctx.violations) > before:
         return ctx.violations.pop()
+    sg_correspondence(ctx)
+    found = [v for v in ctx.violations[before:] if v.get("concrete")]
+    del ctx.violations[before:]
+    if found:
+        found[0]["replay"]["origin"] = "search after broken %s %s" % (broken["kind"], broken["name"])
+        return found[0]
     return doc_search(ctx, broken)
 
 def replay(ctx, path):
     r = json.load(open(path))["replay"]
     if r.get("tier") == "doc":
         return doc_replay(ctx, r)
+    if r.get("tier") == "sg":
+        common.build_harness("hx_xsd")
+        p = common.run_harness("hx_xsd", input=(r["line"] + "\n").encode())
+        mo = common.run_driver(["xsdsg"], input=(r["line"] + "\n").encode()).decode(errors="replace").split()
+        print("case :", r["line"])
+        print("pair :", r.get("pair"), " (bit index = member * number of elements + exemplar)")
+        print("impl :", p.stdout.decode(errors="replace").strip())
+        print("model:", mo[0] if mo else "?"); print("spec :", mo[1] if len(mo) > 1 else "?")
+        return 0
     if r.get("tier") == "raw":
         p = common.run_harness("hx_xsd", input=(r["line"] + "\n").encode())
         print(p.stdout.decode(errors="replace")); print(p.stderr.decode(errors="replace")[-1500:])
@@ -526,7 +694,7 @@ def replay(ctx, path):
 from props import c08doc as D
 from props import c08run as R
 
-def doc_jobs(ctx, nschemas):
+def doc_jobs(ctx, nschemas, nsubst=0):
     r = ctx.rng
     th = ctx.thorough()
     jobs = []
@@ -568,6 +736,15 @@ def doc_jobs(ctx, nschemas):
                 cases.append((kind, e, D.render_xml(M, e, r)))
         muts = R.schema_mutations(M, docs, r) if (th or si % 3 == 0) else []
         jobs.append(dict(M=M, docs=docs, cases=cases, muts=muts, tag=tag))
+    # substitution-group chains: members typed by derivation steps over the head's type, block on every level, blockDefault
+    for si in range(nsubst):
+        M, inst, roots = D.build_subst_model(r, si % 3)
+        docs = D.render_xsd(M, r)
+        cases = []
+        for kind, e in D.subst_cases(M, inst, roots, r):
+            D.number(e)
+            cases.append((kind, e, D.render_xml(M, e, r)))
+        jobs.append(dict(M=M, docs=docs, cases=cases, muts=[], tag="", family="subst"))
     return jobs
 
 def doc_run(jobs, nshard=8):
@@ -635,6 +812,12 @@ def doc_judge(ctx, jobs, origin):
                 {"tier": "doc", "schema": docs, "origin": origin}, len(sdesc))
             continue
         stats["schemas_loaded"] += 1
+        if j.get("family") == "subst":
+            sb = stats.setdefault("subst_family", dict(schemas=0, instances=0, spec_invalid=0, with_blockDefault=0, type_level_block=0))
+            sb["schemas"] += 1; sb["instances"] += len(j["cases"])
+            sb["spec_invalid"] += sum(1 for sp in j["spec"] if sp.startswith("invalid "))
+            sb["with_blockDefault"] += 1 if getattr(M, "block_default", None) is not None else 0
+            sb["type_level_block"] += 1 if any(any(c["block"]) for c in M.ctypes if c["kind"] == "E") else 0
         for (kind, e, xml), sp, im in zip(j["cases"], j["spec"], j["impl"]):
             stats["instances"] += 1
             stats["kinds"][kind.split(":")[0]] = stats["kinds"].get(kind.split(":")[0], 0) + 1
@@ -681,6 +864,9 @@ def doc_judge(ctx, jobs, origin):
                 if j.get("tag") and key in ("doc:rejects-valid:ElementNotValidForContent", "doc:rejects-valid:EmptyNotValidForContent",
                                             "doc:rejects-valid:NotEnoughElemsForCM"):
                     key = "doc:" + j["tag"] + "rejects-valid"
+                if j.get("family") == "subst" and kind.startswith("subst"):
+                    if key.startswith(("doc:accepts-invalid:", "doc:rejects-valid:")):
+                        key = "doc:subst:" + key[4:]
                 add(key, "%s. Instance (%s): %s  Schema: %s" % (what, kind, xml[:700], sdesc[:1500]),
                     {"tier": "doc", "schema": docs, "xml": xml, "abstract_schema": D.schema_line(M), "abstract": D.elem_line(e),
                      "spec": sp[:300], "impl": im[:600], "origin": origin}, len(xml) + len(sdesc))
@@ -703,7 +889,7 @@ def doc_judge(ctx, jobs, origin):
 
 def doc_correspondence(ctx):
     n = 120 if ctx.thorough() else 8
-    jobs = doc_jobs(ctx, n)
+    jobs = doc_jobs(ctx, n, 60 if ctx.thorough() else 6)
     doc_run(jobs)
     stats = doc_judge(ctx, jobs, "correspondence")
     stats["schemas_rerun_after_harness_death"] = sum(1 for j in jobs if j.get("retried"))
@@ -724,7 +910,7 @@ def doc_correspondence(ctx):
             ctx.samples.append({"kind": kind, "instance": xml[:300], "spec": sp[:160], "impl": im[:200]})
 
 def doc_search(ctx, broken):
-    jobs = doc_jobs(ctx, 40 if ctx.thorough() else 10)
+    jobs = doc_jobs(ctx, 40 if ctx.thorough() else 10, 30 if ctx.thorough() else 8)
     doc_run(jobs)
     before = len(ctx.violations)
     doc_judge(ctx, jobs, "search after broken %s %s" % (broken["kind"], broken["name"]))
